@@ -14,6 +14,7 @@ operating-system behaviour: the model covers arbitrary prefixes, the thorough ti
 -/
 import Alos2.Proofs.Flow
 import Alos2.Proofs.BridgeTotal
+import Alos2.Proofs.ProductCached
 
 namespace Alos2.C09
 
@@ -52,5 +53,23 @@ theorem concrete_open_after_crash (fr : FloatRepr) (hfr : fr.OK) (loads : List C
 /-- non-vacuity: `{"a": [1, "x]"]}` cut inside the string is not balanced; the whole text is -/
 example : ¬ Balanced ("{\"a\": [1, \"x]".toList) := by unfold Balanced; decide
 example : Balanced (dump (.dict [("a", .list [.int 1, .str "x]"])])) := by unfold Balanced; decide
+
+/-- THE WHOLE PRODUCT: cache writes interrupted anywhere, for any of the images, at either location, any number of times, mixed
+    with anything else — every later open of the product returns the tree of an uncached open (a torn index is never an
+    error and never a wrong tree); the case "only crashes, then opens" of C10 `product_history_independent` stated on its own -/
+theorem product_open_after_crashes (fr : FloatRepr) (loads : List Char → Except Err PyVal) (root : String) (fs : Files)
+    (G : String → CGroup) (ra : KVs Leaf) (su : List (String × SGroup)) (me : Grp Leaf) (imgs : List String)
+    (hh : openProductHead fs = .ok (ra, su, me, imgs))
+    (hok : ∀ name ∈ imgs, ImgOK fr loads root fs name (G name))
+    (crashes : List POp)
+    (hcr : ∀ op ∈ crashes, (∃ n r k, op = .crashLocal n r k) ∨ (∃ n r k, op = .crashAdjacent n r k))
+    (use create : Bool) (rpc : Nat) (hr : 0 < rpc) :
+    ∀ o ∈ (prun fr loads root fs [] (crashes ++ [.open_ use create rpc])).1, o.2 = openProductC fr root fs o.1 := by
+  apply prun_correct fr loads root fs G ra su me imgs hh hok [] (PInv_empty loads G imgs)
+  intro u cr r hm
+  rcases List.mem_append.mp hm with hm | hm
+  · rcases hcr _ hm with ⟨n, r', k, he⟩ | ⟨n, r', k, he⟩ <;> cases he
+  · simp at hm
+    omega
 
 end Alos2.C09
